@@ -28,6 +28,7 @@
 #include "cli-subroutines.h"
 
 #include "snoopy.h"
+#include "util/string-snoopy.h"
 
 #include <stdio.h>
 #include <stdlib.h>
@@ -44,6 +45,7 @@ int snoopy_cli_action_enable ()
     size_t newEtcLdSoPreloadContentLength;
     size_t newEtcLdSoPreloadContentLengthBuf;
     char * strPosPtr = 0;
+    const char * foundStringPos = NULL;
 
 
     // Get file we're working with (prod or test)
@@ -66,6 +68,19 @@ int snoopy_cli_action_enable ()
 
     // Check if OUR Snoopy is already enabled
     if (etcLdSoPreload_findEntry(curEtcLdSoPreloadContent, libsnoopySoPath)) {
+
+        // Make sure there is no ANOTHER Snoopy instance enabled next to ours (`status` and `disable` refuse such a file too)
+        foundStringPos = etcLdSoPreload_findNonCommentLineContainingString(curEtcLdSoPreloadContent, SNOOPY_SO_LIBRARY_NAME);
+        if (
+            (foundStringPos != NULL)
+            &&
+            (etcLdSoPreload_findNonCommentLineContainingString(foundStringPos + snoopy_util_string_getLineLength(foundStringPos), SNOOPY_SO_LIBRARY_NAME) != NULL)
+        ) {
+            printDiagValue("ld.so.preload path", g_etcLdSoPreloadPath);
+            printDiagValue("Search string", SNOOPY_SO_LIBRARY_NAME);
+            fatalError("Another Snoopy instance encountered.");
+        }
+
         free(curEtcLdSoPreloadContent);
         printDiagValue("ld.so.preload path", g_etcLdSoPreloadPath);
         printDiagValue("Search string", libsnoopySoPath);
